@@ -23,8 +23,13 @@ mod c15;
 mod c19;
 mod c14;
 mod c07;
+mod alloc;
+mod c18;
 
 use engine::{Env, Tier};
+
+#[global_allocator]
+static GLOBAL: alloc::Counting = alloc::Counting;
 use std::path::PathBuf;
 
 fn usage() -> ! {
@@ -124,6 +129,7 @@ fn main() {
         "C19" => c19::run(&env),
         "C14" => c14::run(&env, &rest),
         "C07" => c07::run(&env),
+        "C18" => c18::run(&env),
         _ => usage(),
     };
     std::process::exit(code);
